@@ -232,8 +232,13 @@ func c07Probe(kind string, g, x int) *c07Obs {
 		n := 0
 		e3 := z.Int().GT(1<<53+1).Parse(5, &n)
 		obsList(o, e3)
-		// (process-wide state outlives ClearPools: checked absolutely as well)
-		v.Assert(len(e1) == 1 && strings.HasSuffix(e1[0].Message, "than -0") && len(e3) == 1 && strings.HasSuffix(e3[0].Message, "9007199254740993"), "C07:result-depends-on-earlier-executions")
+		// (process-wide state outlives ClearPools, so the dirty and the clean run would agree: checked
+		// absolutely as well, without fixing how a number is printed — the text for -0 is not the
+		// text for +0, the text for 2^53+1 not the one for 2^53, which the prior call rendered)
+		p0 := 0.5
+		ePos := z.Float64().GT(0.0).Parse(-1.5, &p0)
+		eBig := z.Int().GT(1<<53).Parse(5, &n)
+		v.Assert(len(e1) == 1 && len(ePos) == 1 && e1[0].Message != ePos[0].Message && len(e3) == 1 && len(eBig) == 1 && e3[0].Message != eBig[0].Message, "C07:result-depends-on-earlier-executions")
 	case "i18n-default":
 		// with i18n installed (by C07_Run, once, before the prior call), a call that names no
 		// language is formatted in the default language
